@@ -200,10 +200,14 @@ fn plan_faults(plan: &Plan, out: &Outcome, refs: &mut RefTable) -> (FaultCounts,
                 continue;
             }
             Op::Project {
-                order, via_hashmap, ..
+                order,
+                via_hashmap,
+                dups,
+                via_insert,
+                ..
             } => {
                 let ident = order.iter().enumerate().all(|(i, o)| i == *o);
-                if !ident || *via_hashmap {
+                if !ident || *via_hashmap || !dups.is_empty() || *via_insert {
                     f.enum_permute += 1;
                 }
             }
